@@ -34,7 +34,7 @@ FLOORS = {'files_loaded': 60, 'cells_compared': 2000,
           'shared_members_compared': 100, 'cached_values_compared': 300,
           'names_compared': 30, 'ignore_sets': 20, 'storage_forms_seen': 9,
           'evaluations_compared': 1000, 'date1904_workbooks': 4,
-          'sheet_scoped_twin_names': 5}
+          'sheet_scoped_twin_names': 5, 'archives_parsed_again': 20}
 ANCHOR_FUNCS = {
     'xlcalculator/reader.py': ['Reader.read', 'Reader.read_cells',
                                'Reader.read_defined_names'],
@@ -350,13 +350,19 @@ def run(ctx):
             subsets = [x for x in subsets if sheets[0] not in x]
         if not thorough and len(subsets) > 5:
             subsets = [()] + rng.sample(subsets[1:], 4)
-        for ignore in subsets:
+        shared_archive = None
+        for n_sub, ignore in enumerate(subsets):
             ctx.event('ignore_sets')
             # the documented ways to load a workbook
             how = rng.choice(['read_and_parse_archive',
                               'read_and_parse_archive', 'pathlib path',
                               'build_code=False, then build_code()',
                               'read_excel_file + parse_archive + build_code'])
+            if n_sub % 2 == 1:
+                # the file read ONCE, the archive parsed once per set of
+                # ignored sheets (the models parsed earlier have been worked
+                # with in between, see the end of this loop)
+                how = 'one archive parsed again'
             ctx.event('load_forms:' + how.split(',')[0].split(' ')[0])
             try:
                 if how == 'read_and_parse_archive':
@@ -370,9 +376,18 @@ def run(ctx):
                     model = ModelCompiler().read_and_parse_archive(
                         path, ignore_sheets=list(ignore), build_code=False)
                     model.build_code()
+                elif how == 'one archive parsed again':
+                    if shared_archive is None:
+                        shared_archive = ModelCompiler().read_excel_file(path)
+                    mc = ModelCompiler()
+                    mc.parse_archive(shared_archive,
+                                     ignore_sheets=list(ignore))
+                    mc.model.build_code()
+                    model = mc.model
+                    ctx.event('archives_parsed_again')
                 else:
                     mc = ModelCompiler()
-                    archive = mc.read_excel_file(path)
+                    archive = shared_archive = mc.read_excel_file(path)
                     mc.parse_archive(archive, ignore_sheets=list(ignore))
                     mc.model.build_code()
                     model = mc.model
@@ -518,6 +533,16 @@ def run(ctx):
                             f'evaluate({a}) -> {got} on the loaded model, '
                             f'{gd} on a model built directly from the same '
                             f'contents')
+            # the loaded model is worked with (inputs overwritten, every
+            # formula evaluated above): whatever is loaded next - from the
+            # file or from the archive read before - shows the FILE
+            for a_, c_ in list(model.cells.items()):
+                if c_.formula is None and isinstance(c_.value, (int, float)) \
+                        and not isinstance(c_.value, bool):
+                    try:
+                        model.set_cell_value(a_, 987654.5)
+                    except Exception:  # noqa
+                        pass
             nt = (fi, ctx.shard, ignore) if (
                 len(sp.forms) >= 4 or sp.shared_members or sp.names) else None
             ctx.case(nt)
